@@ -93,11 +93,13 @@ pub struct CliOpts {
     pub cap: usize,
     /// standard input is a directory: every read fails (EISDIR) instead of returning data or end of file
     pub stdin_unreadable: bool,
+    /// the complete argument list instead of `<file> [-i]`; the element "{FILE}" stands for the source file
+    pub argv: Option<Vec<String>>,
 }
 
 impl Default for CliOpts {
     fn default() -> Self {
-        CliOpts { interpreted: false, order: None, timeout_ms: 4000, cap: 1 << 20, stdin_unreadable: false }
+        CliOpts { interpreted: false, order: None, timeout_ms: 4000, cap: 1 << 20, stdin_unreadable: false, argv: None }
     }
 }
 
@@ -134,9 +136,22 @@ fn run_cli_once(src: &[u8], stdin: &[u8], o: &CliOpts) -> CliOut {
     let path = format!("{}/{}-{}.s", run_dir(), std::process::id(), n);
     std::fs::write(&path, src).expect("write source");
     let mut cmd = Command::new(cli_bin());
-    cmd.arg(&path);
-    if o.interpreted {
-        cmd.arg("-i");
+    match &o.argv {
+        Some(av) => {
+            for a in av {
+                if a == "{FILE}" {
+                    cmd.arg(&path);
+                } else {
+                    cmd.arg(a);
+                }
+            }
+        }
+        None => {
+            cmd.arg(&path);
+            if o.interpreted {
+                cmd.arg("-i");
+            }
+        }
     }
     match o.order {
         Some(k) => {
